@@ -19,7 +19,7 @@ import (
 )
 
 const ruleC02 = "strings <= 256 characters from G-MUT: rendered ASTs (canonical and free spelling), character/token mutations of them and of the suite's own paths, token soup, arbitrary Unicode, arbitrary bytes (invalid UTF-8), integer literals around the int limits, sentences derived top-down from /repo/jsonpath.peg itself (scripts, odd literals, every escape form), and deep nestings (filters in filter operands to depth 31, parentheses, logical chains, unions) within 256 characters; a watchdog aborts any case that exceeds 20 s (confirmed by replay) for the bounded-time clause; " +
-	"each parsed under one of 4 configs (none/functions/accessor/both); plus the bounded-exhaustive reduced grammar (enumerated completely by TestC02_Reduced). " +
+	"each parsed under one of 4 configs (none/functions/accessor/both) and, for 7 strings in 8, also with a list of 2..3 Configs (empty first, accessor-only first, filter-only + aggregate-only in both orders, ...); plus the bounded-exhaustive reduced grammar (enumerated completely by TestC02_Reduced). " +
 	"Oracle: exactly one of (f,nil)/(nil, one of the 4 documented syntax-check error types), Retrieve agrees with Parse, a returned function is callable. " +
 	"Non-trivial: rejected somewhere after offset 0, or rejected by a semantic restriction, or accepted with >=1 step. Distinct = distinct (string, config)."
 
@@ -182,6 +182,9 @@ func checkC02(c *Case, st *Stats) string {
 			return "parsed function on a small document: " + msg
 		}
 	}
+	if msg := severalConfigs(c, st); msg != "" {
+		return msg
+	}
 	if utf8.ValidString(c.Path) {
 		st.Class("utf8:valid")
 	} else {
@@ -200,6 +203,78 @@ func checkC02(c *Case, st *Stats) string {
 		st.NonTrivialCase(c.Path+"\x00"+flagString(c), func() interface{} {
 			return map[string]interface{}{"path": c.Path, "family": fam, "funcs": c.Funcs, "accessor": c.Accessor, "outcome": outcomeText(err)}
 		})
+	}
+	return ""
+}
+
+// configList builds the variadic Config list of shape k (1..7): Parse takes `config ...Config`,
+// so a caller may pass several, in any order, some of them empty.
+func configList(k int) []jsonpath.Config {
+	full := BuildConfig(nil, true, false)
+	fullAcc := BuildConfig(nil, true, true)
+	var accOnly, filterOnly, aggOnly jsonpath.Config
+	accOnly.SetAccessorMode()
+	for _, name := range gen.FilterNames {
+		name := name
+		filterOnly.SetFilterFunction(name, func(v interface{}) (interface{}, error) { return gen.ApplyFilter(name, v) })
+	}
+	for _, name := range gen.AggNames {
+		name := name
+		aggOnly.SetAggregateFunction(name, func(vs []interface{}) (interface{}, error) { return gen.ApplyAggregate(name, vs) })
+	}
+	switch k {
+	case 1:
+		return []jsonpath.Config{{}, full}
+	case 2:
+		return []jsonpath.Config{accOnly, full}
+	case 3:
+		return []jsonpath.Config{aggOnly, filterOnly}
+	case 4:
+		return []jsonpath.Config{filterOnly, aggOnly}
+	case 5:
+		return []jsonpath.Config{full, {}}
+	case 6:
+		return []jsonpath.Config{full, fullAcc}
+	}
+	return []jsonpath.Config{{}, {}, fullAcc}
+}
+
+// severalConfigs: the same string parsed with a list of Configs (shape chosen by the string) is
+// subject to the same totality contract, for Parse and for Retrieve.
+func severalConfigs(c *Case, st *Stats) string {
+	k := len(c.Path)
+	for i := 0; i < len(c.Path); i++ {
+		k += int(c.Path[i])
+	}
+	k %= 8
+	if k == 0 {
+		return ""
+	}
+	cfgs := configList(k)
+	f, err := jsonpath.Parse(c.Path, cfgs...)
+	noteParse(c.Path, true, true)
+	st.Eval(1)
+	st.Class(fmt.Sprintf("several-configs:shape%d", k))
+	if msg := parseOutcome(f, err); msg != "" {
+		return fmt.Sprintf("with %d Configs (shape %d): %s", len(cfgs), k, msg)
+	}
+	got, rerr := jsonpath.Retrieve(c.Path, gen.MustDecode(tinyDoc, false), cfgs...)
+	noteParse(c.Path, true, true)
+	if err != nil {
+		if rerr == nil || reflect.TypeOf(rerr) != reflect.TypeOf(err) || got != nil {
+			return fmt.Sprintf("with %d Configs (shape %d): Parse error %q, Retrieve (%v, %v)", len(cfgs), k, err, got, rerr)
+		}
+		return ""
+	}
+	if rerr != nil && DescribeErr(rerr).IsSyntax() {
+		return fmt.Sprintf("with %d Configs (shape %d): Retrieve rejected a path that Parse accepted: %v", len(cfgs), k, rerr)
+	}
+	if msg := runtimeOutcome(got, rerr); msg != "" {
+		return fmt.Sprintf("with %d Configs (shape %d): Retrieve: %s", len(cfgs), k, msg)
+	}
+	out, e2 := f(gen.MustDecode(tinyDoc, false))
+	if msg := runtimeOutcome(out, e2); msg != "" {
+		return fmt.Sprintf("with %d Configs (shape %d): parsed function on a small document: %s", len(cfgs), k, msg)
 	}
 	return ""
 }
